@@ -39,7 +39,7 @@ import (
 
 const c10Rule = "case = configuration of epoch A in which 0, 1 or 2 index roles (cid_to_offset_and_size, slot_to_cid, sig_to_cid, sig_exists, gsfa, slot_to_blocktime) carry a fault; " +
 	"fault menu per role: epoch (file written by the repository's writer from A's data with B's epoch number), root (…with B's root CID), epoch+root (both), whole-B (B's real index), " +
-	"kind<-X (the file of every other role X, and the gsfa directory's inner pubkey index, configured in this role); all singles and ALL pairs of faults on two different roles, " +
+	"kind<-X (the file of every other role X, and the gsfa directory's inner pubkey index, configured in this role); all singles and ALL pairs of faults on two different roles, plus A's gsfa directory with only its inner pubkey index replaced by one that records B's epoch, B's root, both, or is B's own, " +
 	"plus: every root-carrying index with B's root (they agree with each other), all indexes from B with A's CAR, A's indexes with B's CAR (local file and ReaderAt), B's configuration with A's CAR, gsfa left out. " +
 	"Oracle: NewEpochFromConfig fails whenever some configured file is of the wrong kind, records an epoch other than the configured one, or records a root CID that differs from another configured index; the fault-free configuration loads; " +
 	"whenever loading succeeds every GetNodeByCid of the epoch's archived objects fails or returns exactly that CID's bytes. " +
@@ -309,8 +309,47 @@ func (w *c10World) path(f c10Fault) string {
 		}
 		return w.AA[f.From]
 	default:
+		if strings.HasPrefix(f.Field, "inner-") {
+			return w.innerSwapped(strings.TrimPrefix(f.Field, "inner-"))
+		}
 		return w.V[f.Field][f.Role]
 	}
+}
+
+// innerSwapped returns a copy of A's gsfa directory (manifest and linked log untouched) whose inner pubkey index is
+// the one of the given variant ("epoch", "root", "epoch+root": written from A's ground truth with that identity;
+// "whole-B": B's own). Only the identity recorded inside that one file tells it apart from A's.
+func (w *c10World) innerSwapped(variant string) string {
+	dst := w.A.GsfaDir + "-inner-" + strings.ReplaceAll(variant, "+", "-")
+	if _, err := os.Stat(dst); err == nil {
+		return dst
+	}
+	src := w.BBr["gsfa"]
+	if variant != "whole-B" {
+		src = w.V[variant]["gsfa"]
+	}
+	if err := os.MkdirAll(dst, 0o755); err != nil {
+		panic(err)
+	}
+	ents, err := os.ReadDir(w.A.GsfaDir)
+	if err != nil {
+		panic(err)
+	}
+	inner := string(indexes.Kind_PubkeyToOffsetAndSize) + ".index"
+	for _, e := range ents {
+		from := filepath.Join(w.A.GsfaDir, e.Name())
+		if e.Name() == inner {
+			from = filepath.Join(src, inner)
+		}
+		b, err := os.ReadFile(from)
+		if err != nil {
+			panic(err)
+		}
+		if err := os.WriteFile(filepath.Join(dst, e.Name()), b, 0o644); err != nil {
+			panic(err)
+		}
+	}
+	return dst
 }
 
 type c10Case struct {
@@ -704,6 +743,9 @@ func TestVerif_C10(t *testing.T) {
 		cases = append(cases, c)
 	}
 	rootRoles := []string{"cid_to_offset_and_size", "slot_to_cid", "sig_to_cid", "sig_exists", "gsfa"}
+	for _, v := range []string{"epoch", "root", "epoch+root", "whole-B"} {
+		special("gsfa directory of A whose inner pubkey index records another identity:", "inner-"+v, []string{"gsfa"}, "", "")
+	}
 	special("every root-carrying index records B's root", "root", rootRoles, "", "")
 	special("all indexes from B, CAR from A", "whole-B", c10Roles, "", "")
 	special("indexes from A, CAR from B", "", nil, "B", "")
@@ -729,8 +771,8 @@ func TestVerif_C10(t *testing.T) {
 		}
 		for _, f := range c.Faults {
 			switch f.Field {
-			case "kind", "epoch", "epoch+root", "whole-B":
-				demand = true
+			case "kind", "epoch", "epoch+root", "whole-B", "inner-epoch", "inner-root", "inner-epoch+root", "inner-whole-B":
+				demand = true // (inner-root: the other files record A's root, so the files disagree)
 			case "root":
 				roots[f.Role] = true
 			}
